@@ -87,10 +87,10 @@ def snapshot_hdf5(exp, features, filtered, skip_checks):
     import dclab.definitions as dfn_
     for f in feats:
         try:
-            if rv is not None and f in ("image", "image_bg", "mask", "contour", "trace") \
-                    and f in rv[0].features_innate:
-                # provenance: the non-scalar data of a hierarchy member are the root's data
-                # at the composed root indices (independent of the member's own mapping)
+            if rv is not None and f != "index" and f in rv[0].features_innate:
+                # provenance: the data of a hierarchy member are the root's data at the
+                # composed root indices (independent of the member's own mapping and of
+                # whatever the member's feature objects have cached)
                 snap["expected"][f] = expected_feature(rv[0], f, rv[1][idx])
             else:
                 snap["expected"][f] = expected_feature(ds, f, idx)
